@@ -82,6 +82,16 @@ MissSegments(got, size) ==
         ordered == SortSeq(SetToSeq(starts), LAMBDA a, b : a < b)
     IN [i \in 1..Len(ordered) |-> [off |-> ordered[i], len |-> EndOf(ordered[i]) - ordered[i] + 1]]
 
+\* the same ranges computed on intervals instead of bytes (for files of hundreds of kilobytes): the non-empty gaps before, between
+\* and behind the received chunks taken in ascending order.  MC_Miss checks MissIntervals = MissSegments on every small case.
+MissIntervals(ch, size) ==
+    LET s == SortSeq(ch, LAMBDA a, b : a.off < b.off)
+        n == Len(s)
+        gapS(i) == IF i = 0 THEN 0 ELSE s[i].off + s[i].len
+        gapE(i) == IF i = n THEN size ELSE s[i + 1].off
+        idx == SelectSeq([i \in 1..(n + 1) |-> i - 1], LAMBDA i : gapE(i) > gapS(i))
+    IN [k \in 1..Len(idx) |-> [off |-> gapS(idx[k]), len |-> gapE(idx[k]) - gapS(idx[k])]]
+
 \* declarative characterisation (C16): exactly the missing bytes, ascending, maximal, non-empty
 MissExact(m, got, size) ==
     LET cov == CoveredSet(got) IN
